@@ -75,6 +75,9 @@ type GenSpec struct {
 	// NoStructOnly excludes batches that only create/delete children without
 	// any key operation anywhere (F14 family).
 	NoStructOnly bool
+	// NoStructOnlyEmpty excludes such batches only while no key operation has
+	// been generated yet (the store may hold no segment at all: F14e).
+	NoStructOnlyEmpty bool
 }
 
 type genState struct {
@@ -87,6 +90,7 @@ type genState struct {
 	bigPlan    int // 0 none, 1 one rejected oversize op, 2 one limit-sized key
 	bigAt      int
 	bigSeen    bool
+	everKey    bool // some key operation was generated since the store could last be empty
 }
 
 func genKeyPool(t *rapid.T, hostile bool, max int) [][]byte {
@@ -257,7 +261,14 @@ func (g *genState) genBulk(t *rapid.T, cur *Node) []KV {
 func (g *genState) genBatch(t *rapid.T, cur *Node, depth int, path string) *Batch {
 	b := &Batch{}
 	if depth == 0 && g.spec.BigBatches && chance(t, "bulk", 10) {
-		b.Ops = g.genBulk(t, cur)
+		if len(cur.KV) >= 20 && chance(t, "deleteall", 40) {
+			// delete every live key: a later full compaction leaves no entry
+			for _, k := range cur.Keys() {
+				b.Ops = append(b.Ops, KV{Op: OpDel, K: []byte(k)})
+			}
+		} else {
+			b.Ops = g.genBulk(t, cur)
+		}
 	} else {
 		b.Ops = g.genOps(t, cur, 8)
 	}
@@ -347,6 +358,19 @@ func (g *genState) nextBatch(t *rapid.T) *Batch {
 			k = g.keys[0]
 		}
 		b.Ops = []KV{{Op: OpSet, K: k, V: []byte(fmt.Sprintf("v%d.x", g.batchNo))}}
+	}
+	if g.spec.NoStructOnlyEmpty && !g.everKey && len(b.Children) > 0 && !batchHasKeyOps(b) {
+		// open finding F14e: children created in a store that holds no
+		// segment at all are not persisted
+		g.excluded++
+		k := []byte("a")
+		if len(g.keys) > 0 {
+			k = g.keys[0]
+		}
+		b.Ops = []KV{{Op: OpSet, K: k, V: []byte(fmt.Sprintf("v%d.z", g.batchNo))}}
+	}
+	if batchHasKeyOps(b) {
+		g.everKey = true
 	}
 	if g.spec.NoStructOnly && len(b.Children) > 0 && !batchHasKeyOps(b) {
 		g.excluded++
@@ -539,6 +563,7 @@ func genHistory(t *rapid.T, spec *GenSpec) (*Program, int) {
 			p.Ops = append(p.Ops, Op{Kind: "ssnap", ID: nextID})
 			nextID++
 		case 11:
+			g.everKey = false // an early close may lose everything: the store can be empty again
 			o := Op{Kind: "reopen", Drain: false}
 			if chance(t, "nosettle", 50) {
 				o.N = 1
